@@ -71,6 +71,10 @@ class C06(ConcBase):
 
     def cases(self, tier, seed):
         res = self.gen(tier, seed, PROGS, 6)
+        # memory validity itself (a read of freed memory does not show in hook traces or counters): one deterministic
+        # program under Miri in which the last handle is, in turn, the root, an inner node, a token, a handle on another
+        # thread, a handle re-pointed across trees
+        res.append(("miri", "M handles 0 %d" % (1 if tier == "quick" else 4)))
         # `R` cases: several trees and the handle operations std provides on top of Clone and Drop (Handles.v)
         import itertools
         from .core import Rng
@@ -97,7 +101,7 @@ class C06(ConcBase):
         return res
 
     def project(self, line):
-        if line.startswith("RH "):
+        if line.startswith("RH ") or " || " not in line:
             return line
         p = line.split(" || ")
         # (memory orderings weaker than AcqRel are marked ~Ordering in the trace: they are C07's business, not C06's)
